@@ -4,7 +4,7 @@
             streamflow.deployment.aiotarstream.SeekableStreamReaderWrapper.seek,
             streamflow.deployment.aiotarstream.FileStreamReaderWrapper.read,
             streamflow.deployment.aiotarstream.copyfileobj, streamflow.deployment.aiotarstream.write,
-            streamflow.deployment.aiotarstream.AioTarInfo.fromtarfile, ._proc_builtin, ._proc_gnulong,
+            streamflow.deployment.aiotarstream.AioTarInfo.fromtarfile, ._proc_builtin, ._proc_gnulong, ._proc_pax,
             streamflow.deployment.aiotarstream.AioTarStream.next, .makefile, .addfile, ._close,
             streamflow.deployment.connector.base.extract_tar_stream,
             tarfile.TarInfo.frombuf, tarfile.nti, tarfile.nts, tarfile.calc_chksums (CPython, called by the above)
@@ -230,6 +230,68 @@ Definition rel_under (base name : bytes) : option bytes :=
   if bytes_eqb n base then Some []
   else starts_with (base ++ [47]) n.
 
+(* ---- AioTarInfo._proc_pax: records "<len> <key>=<value>\n" ---- *)
+Definition is_digit (b : N) : bool := (48 <=? b) && (b <=? 57).
+Fixpoint take_digits (s : bytes) : bytes * bytes :=
+  match s with
+  | d :: r => if is_digit d then let '(ds, r') := take_digits r in (d :: ds, r') else ([], s)
+  | [] => ([], [])
+  end.
+Fixpoint take_key (s : bytes) : bytes * bytes :=          (* [^=]+ *)
+  match s with
+  | c :: r => if c =? 61 then ([], s) else let '(k, r') := take_key r in (c :: k, r')
+  | [] => ([], [])
+  end.
+Fixpoint dec_val (acc : N) (ds : bytes) : N :=
+  match ds with
+  | [] => acc
+  | d :: r => dec_val (acc * 10 + (d - 48)) r
+  end.
+Inductive prec := PNoMatch | PInvalid | PRec (key value : bytes) (len : N).
+(* regex.match(buf, pos) with rb"(\d+) ([^=]+)=" ; value = buf[m.end(2)+1 : m.start(1)+length-1] *)
+Definition pax_record (buf : bytes) (p : N) : prec :=
+  let '(ds, r1) := take_digits (dropN p buf) in
+  match ds, r1 with
+  | _ :: _, 32 :: r2 =>
+      let '(k, r3) := take_key r2 in
+      match k, r3 with
+      | _ :: _, 61 :: _ =>
+          let len := dec_val 0 ds in
+          if len =? 0 then PInvalid
+          else PRec k (slice (p + lenN ds + 1 + lenN k + 1) (p + len - 1) buf) len
+      | _, _ => PNoMatch
+      end
+  | _, _ => PNoMatch
+  end.
+Definition pax_recs := list (bytes * bytes).
+Fixpoint parse_pax (fuel : nat) (buf : bytes) (p : N) (acc : pax_recs) : option pax_recs :=
+  match fuel with
+  | O => Some acc
+  | S f =>
+      match pax_record buf p with
+      | PNoMatch => Some acc
+      | PInvalid => None
+      | PRec k v len => parse_pax f buf (p + len) (acc ++ [(k, v)])
+      end
+  end.
+Definition K_PATH : bytes := [112;97;116;104].
+Definition K_LINKPATH : bytes := [108;105;110;107;112;97;116;104].
+Definition K_SIZE : bytes := [115;105;122;101].
+Definition K_SPARSE_PREFIX : bytes := [71;78;85;46;115;112;97;114;115;101].      (* "GNU.sparse" *)
+Definition has_prefix (p s : bytes) : bool := match starts_with p s with Some _ => true | None => false end.
+Definition pax_has (k : bytes) (recs : pax_recs) : bool := existsb (fun kv => bytes_eqb (fst kv) k) recs.
+Definition pax_sparse (recs : pax_recs) : bool := existsb (fun kv => has_prefix K_SPARSE_PREFIX (fst kv)) recs.
+Definition pax_int (v : bytes) : N := if forallb is_digit v && negb (lenN v =? 0) then dec_val 0 v else 0.
+(* TarInfo._apply_pax_info, in record order (a dict: the last occurrence of a key wins) *)
+Definition pax_apply1 (h : hdr) (kv : bytes * bytes) : hdr :=
+  let '(k, v) := kv in
+  if bytes_eqb k K_PATH then {| h_name := rstrip_slash v; h_mode := h_mode h; h_size := h_size h; h_type := h_type h; h_link := h_link h |}
+  else if bytes_eqb k K_LINKPATH then {| h_name := h_name h; h_mode := h_mode h; h_size := h_size h; h_type := h_type h; h_link := v |}
+  else if bytes_eqb k K_SIZE then {| h_name := h_name h; h_mode := h_mode h; h_size := pax_int v; h_type := h_type h; h_link := h_link h |}
+  else h.
+Definition pax_apply (recs : pax_recs) (h : hdr) : hdr := fold_left pax_apply1 recs h.
+
+
 Inductive outcome := Done | ReadError | Hang | Unsupported.
 
 Section Parser.
@@ -246,8 +308,8 @@ Section Parser.
     if pos r <? off then let '(d, s') := skip (off - pos r) (und r) in Some {| pos := pos r + d; und := s' |}
     else if off <? pos r then None else Some r.
 
-  (* AioTarInfo.fromtarfile with _proc_member: builtin and GNU long name/link; pax and sparse are
-     outside the model *)
+  (* AioTarInfo.fromtarfile with _proc_member: builtin, GNU long name/link, pax extended headers
+     (path, linkpath, size); global pax headers and sparse members are outside the model *)
   Inductive fres := FHdr (e : hres) | FSub | FUnsup | FOk (h : hdr) (offset_data next_offset : N)
                   | FFuel.   (* the model ran out of fuel (never the case with the fuel run_chunked/members_* give) *)
   Fixpoint fromtar (fuel : nat) (r : rst) : fres * rst :=
@@ -273,7 +335,30 @@ Section Parser.
               | (FUnsup, r3) => (FUnsup, r3)
               | (FFuel, r3) => (FFuel, r3)
               end
-            else if is_pax_type (h_type h) then (FUnsup, r1)
+            else if is_pax_type (h_type h) then
+              if h_type h =? 103 then (FUnsup, r1)          (* 'g' global header: outside the model *)
+              else
+                (* _proc_pax for 'x' / 'X': payload, records, then the real header, then _apply_pax_info *)
+                let '(pbuf, r2) := read (block (h_size h)) r1 in
+                match parse_pax (S (length pbuf)) pbuf 0 [] with
+                | None => (FHdr HInvalid, r2)               (* InvalidHeaderError("invalid header"): length 0 *)
+                | Some recs =>
+                    match fromtar f r2 with
+                    | (FOk h' od no, r3) =>
+                        if pax_sparse recs then (FUnsup, r3)
+                        else
+                          let h'' := pax_apply recs h' in
+                          let no' := if pax_has K_SIZE recs
+                                     then od + (if has_data (h_type h'') then block (h_size h'') else 0)
+                                     else no in
+                          (FOk h'' od no', r3)
+                    | (FHdr HUnsup, r3) => (FUnsup, r3)
+                    | (FHdr _, r3) => (FSub, r3)
+                    | (FSub, r3) => (FSub, r3)
+                    | (FUnsup, r3) => (FUnsup, r3)
+                    | (FFuel, r3) => (FFuel, r3)
+                    end
+                end
             else (FOk h (pos r1) (pos r1 + (if has_data (h_type h) then block (h_size h) else 0)), r1)
         | e => (FHdr e, r1)
         end
